@@ -286,6 +286,13 @@ def minimise(tr, clause, budget=14):
 
 def report(run, traces, verdicts, prop):
     others = {}
+    for tr in traces:
+        sf = tr.get("meta", {}).get("setup_failed")
+        if sf:
+            run.violation(f"{prop}:valid_block_refused the library raised while the driver was building a valid block for the next call "
+                          f"(campaign {tr['meta'].get('campaign')}, after {len(tr['steps'])} calls): {sf}",
+                          dict(kind="container", campaign=tr["meta"].get("campaign"), labels=tr["meta"].get("labels"),
+                               conc_seed=tr["meta"].get("conc_seed"), clauses=[], setup_failed=sf))
     for tid, (upto, cl) in verdicts.items():
         tr = traces[tid - 1]
         mine = [c for c in cl if c[1].startswith(prop + ":")]
